@@ -88,6 +88,8 @@ fn row_alphabet() -> Vec<Row> {
         row(Kind::Sell, "Sell", &us(a), a, "X", "SELL X", "4", "$110", "$0.10", "$439.90"),
         row(Kind::Sell, "Sell", &us(b), b, "X", "SELL X", "4", "$110", "$0.10", "$439.90"),
         row(Kind::Sell, "Sell", &asof, a, "X", "SELL X", "4", "$110", "0.10", "$439.90"),
+        // the same sale but for its fees: a Cancel Sell row quoting fees of $0.10 is not "identical" to this one
+        row(Kind::Sell, "Sell", &us(a), a, "X", "SELL X", "4", "$110", "$0.20", "$439.80"),
         row(Kind::Sell, "Sell", &us(c), c, "X", "SELL X", "2.5", "$120.25", "", ""),
         row(Kind::CancelSell, "Cancel Sell", &us(a), a, "X", "CXL", "4", "$110", "$0.10", "-$439.90"),
         row(Kind::CancelSell, "Cancel Sell", &us(b), b, "X", "CXL", "4", "$110", "", ""),
@@ -167,7 +169,13 @@ fn expected(rows: &[&Row]) -> Expected {
         }
     }
     for r in rows.iter().filter(|r| r.kind == Kind::CancelSell) {
-        if let Some(p) = sells.iter().position(|s| s.0 == r.date && s.1 == r.symbol && Some(s.2) == r.qty && Some(s.3) == r.price) {
+        // "identical": same date, symbol, quantity and price — and, when the Cancel Sell row quotes fees and a sale with
+        // exactly those fees exists, that sale (a sale that differs in its fees is not identical while an identical one
+        // is there); otherwise any sale with the same date, symbol, quantity and price
+        let same = |s: &(NaiveDate, String, Decimal, Decimal, Decimal)| s.0 == r.date && s.1 == r.symbol && Some(s.2) == r.qty && Some(s.3) == r.price;
+        let quotes_fees = r.json["Fees & Comm"].as_str().map(|f| !f.trim().is_empty() && f.trim() != "--").unwrap_or(false);
+        let exact = if quotes_fees { sells.iter().position(|s| same(s) && s.4 == r.fees) } else { None };
+        if let Some(p) = exact.or_else(|| sells.iter().position(|s| same(s))) {
             sells.remove(p);
         } else {
             e.unmatched_cancels += 1;
